@@ -4,6 +4,7 @@ package main
 // its success paths, with destinations and widths.
 
 import (
+	"go/token"
 	"fmt"
 	"sort"
 	"strings"
@@ -140,6 +141,45 @@ func (p *Prog) ReadSequence(s *Sym, rp *RetPoint) []ReadItem {
 						it.Checked = true
 						it.Result = true
 					}
+				}
+			}
+			items = append(items, it)
+		}
+	}
+	// len(s) == 0 on a cryptobyte.String is s.Empty()
+	for _, b := range fn.Blocks {
+		if s.ff.dead[b] {
+			continue
+		}
+		for _, in := range b.Instrs {
+			bo, ok := in.(*ssa.BinOp)
+			if !ok || (bo.Op != token.EQL && bo.Op != token.NEQ) || !isZeroConst(bo.Y) {
+				continue
+			}
+			lc, ok := bo.X.(*ssa.Call)
+			if !ok {
+				continue
+			}
+			if bi, ok := lc.Call.Value.(*ssa.Builtin); !ok || bi.Name() != "len" {
+				continue
+			}
+			arg := lc.Call.Args[0]
+			if !strings.HasSuffix(arg.Type().String(), "cryptobyte.String") {
+				continue
+			}
+			if !(lc.Block() == rp.Block || lc.Block().Dominates(rp.Block)) {
+				continue
+			}
+			it := ReadItem{Op: "empty", Call: lc}
+			if u, ok := arg.(*ssa.UnOp); ok {
+				it.Reader = s.dstTerm(u.X)
+			} else {
+				it.Reader = s.dstTerm(arg)
+			}
+			for _, a := range rp.Facts {
+				if a.Kind == Truth && a.V == ssa.Value(bo) {
+					it.Checked = true
+					it.Result = (bo.Op == token.EQL) == a.Pol
 				}
 			}
 			items = append(items, it)
